@@ -729,12 +729,12 @@ class C19(Spec):
         return True
 
     def failure_kinds(self):
-        return ("C",)
+        return ("C", "H")
 
     def standins(self, root, tier):
         from pyvc import driver
         r = driver.rt_call("pyvc.rt_cli", {"cmd": "search", "root": root, "maxn": 3 if tier == "thorough" else 2}, root, timeout=3000)
-        return [{"name": "cli-scenarios", "scope": "schema file {valid, invalid, missing, not JSON} x every list of <= %d instance files over {valid, invalid with 1 and 2 errors, missing, not JSON} (or one instance on stdin) x {plain with --error-format, pretty, default}; --validator with three draft classes; --base-uri with a local fragment reference; real files, real cli.parse_args + cli.run" % (3 if tier == "thorough" else 2),
+        return [history_standin(root, tier, configs=[[True, "default"]]), {"name": "cli-scenarios", "scope": "schema file {valid, invalid, missing, not JSON} x every list of <= %d instance files over {valid, invalid with 1 and 2 errors, missing, not JSON} (or one instance on stdin) x {plain with --error-format, pretty, default}; --validator with three draft classes; --base-uri with a local fragment reference; real files, real cli.parse_args + cli.run" % (3 if tier == "thorough" else 2),
                  "cases": r["tried"], "failures": r["failures"], "replay_kind": "cli", "label": "bounded (not counted as proof)"}]
 
 
@@ -945,6 +945,21 @@ def resolver_table_obligations(repo):
     return tasks_resolver.init_obligations(repo)
 
 
+def no_handler_obligations(repo):
+    """T: the validator's entry points catch nothing: whatever the error iteration raises (RefResolutionError for an
+    unretrievable document, UnknownType) reaches the caller (the verdict tasks treat callee exceptions as propagating)"""
+    import ast as _ast
+    recs = []
+    for meth in ("is_valid", "validate", "descend", "iter_errors"):
+        u = repo.units.get("validators:create.Validator.%s" % meth)
+        handlers = [h for n in _ast.walk(u.node) if isinstance(n, _ast.Try) for h in n.handlers] if u else None
+        ok = handlers == []
+        recs.append({"name": "validators:create.Validator.%s/T/no-handler" % meth, "kind": "T", "status": "discharged" if ok else "failed", "solver": "tables",
+                     "note": "%s has no `except` clause: exceptions of the error iteration propagate unchanged" % meth,
+                     "rt_search": [("pyvc.rt_hist", {"cmd": "search", "maxlen": 2, "configs": [[True, "default"]]}, "hist")]})
+    return recs
+
+
 class C02(Spec):
     pid = "C02"
     carry = ('err_set', 'descend')
@@ -1012,7 +1027,7 @@ class C15(Spec):
     def table_obligations(self, repo, tabs):
         w, _ = write_frame_obligations(repo, tabs, ["validators:RefResolver.resolve", "validators:RefResolver.resolve_from_url", "validators:RefResolver.resolve_remote",
                                                     "validators:RefResolver.resolve_fragment"], VALIDATION_WRITES, "retrieval")
-        return resolver_table_obligations(repo) + [r for r in w if not r["name"].startswith("frames/")] + ownership_obligations(repo)
+        return resolver_table_obligations(repo) + [r for r in w if not r["name"].startswith("frames/")] + ownership_obligations(repo) + no_handler_obligations(repo)
 
     def standins(self, root, tier):
         return [history_standin(root, tier, configs=[[True, "default"], [False, "default"], [True, "passthrough"]])]
